@@ -162,6 +162,10 @@ func cmdCheck(args []string) {
 	if fn, ok := propExtras[*prop]; ok {
 		fn(cc)
 	}
+	// 2b. global invariants assumed by every function are discharged once per check
+	if len(p.contracts.Globals) > 0 && len(results) > 0 {
+		cc.checkGlobals()
+	}
 	// 3. assumptions: assumed contracts used + fixed list
 	for _, k := range p.contracts.Order {
 		if c := p.contracts.ByKey[k]; c.Assumed {
